@@ -74,6 +74,7 @@ class Scheduler:
         self.version = 0  # bumped by shimmed mutations; wakes 'waiting' threads
         self.wait_version: Dict[int, int] = {}
         self._where: Dict[int, str] = {}
+        self._is_traced: Dict[str, bool] = {}
 
     # -- harness API ----------------------------------------------------------------------
     def spawn(self, tid: int, fn: Callable[[], None]) -> None:
@@ -86,11 +87,13 @@ class Scheduler:
             try:
                 if self.killing:
                     return
-                sys.settrace(self._global_trace)
+                if self.traced:
+                    sys.settrace(self._global_trace)
                 try:
                     fn()
                 finally:
-                    sys.settrace(None)
+                    if self.traced:
+                        sys.settrace(None)
             except _Kill:
                 pass
             except BaseException as exc:  # recorded, reported by the harness
@@ -108,9 +111,11 @@ class Scheduler:
 
     # -- tracing --------------------------------------------------------------------------
     def _global_trace(self, frame, event, arg):
-        if frame.f_code.co_filename in self.traced or os.path.realpath(frame.f_code.co_filename) in self.traced:
-            return self._local_trace
-        return None
+        fn = frame.f_code.co_filename
+        hit = self._is_traced.get(fn)
+        if hit is None:
+            hit = self._is_traced[fn] = (fn in self.traced or os.path.realpath(fn) in self.traced)
+        return self._local_trace if hit else None
 
     def _local_trace(self, frame, event, arg):
         if event == "line":
